@@ -1,7 +1,7 @@
-(* ConnProofsA_lib.v — shared machinery for the proofs about the broker-connection
-   model BC (Conn.v): boolean-equality reflection, the case analysis of [step]
-   (which coroutine made the step), and frame ("shape") lemmas saying which
-   fields each coroutine's step function can change. *)
+(* ConnProofsB1.v — machinery for the C07 proofs about the broker-connection model
+   (own copy of the case analysis of [step] from ConnProofsA_lib.v, kept separate so
+   that the two proof developments build independently), plus association-list
+   and store lemmas. *)
 From Coq Require Import List NArith Bool Lia.
 From Coq.Strings Require Import Byte.
 From GM Require Import Base.Lts Codec.Packet Session.Ids Session.Store
